@@ -21,9 +21,16 @@ let get_target = function
   | L [A "set"; g] -> TSet (get_n g)
   | _ -> bad "target"
 
+(* an exception spec: (cls Name) | (tup spec ...) *)
+let rec get_spec = function
+  | L [A "cls"; c] -> EClass (get_cls c)
+  | L (A "tup" :: l) -> ETuple (List.map get_spec l)
+  | _ -> bad "spec"
+
+(* (count c (default)) = c.count_exceptions();  (count c (given spec)) = c.count_exceptions(spec) *)
 let get_wrapper = function
-  | L [A "count"; c; L [A "default"]] -> WCount (get_n c, default_exceptions)
-  | L [A "count"; c; cs] -> WCount (get_n c, get_list get_cls cs)
+  | L [A "count"; c; L [A "default"]] -> count_exceptions (get_n c) None
+  | L [A "count"; c; L [A "given"; e]] -> count_exceptions (get_n c) (Some (get_spec e))
   | L [A "track"; g] -> WTrack (get_n g)
   | L [A "time"; tg] -> WTime (get_target tg)
   | _ -> bad "wrapper"
@@ -72,6 +79,9 @@ let register (reg : string -> (Sx.t list -> Sx.t) -> unit) =
   reg "c16_issub" (fun a -> match a with
     | [c; d] -> put_bool (issubclass (get_cls c) (get_cls d))
     | _ -> bad "c16_issub");
+  reg "c16_match" (fun a -> match a with
+    | [k; e] -> put_bool (isinstance_spec (get_cls k) (get_spec e))
+    | _ -> bad "c16_match");
   reg "c16_bind" (fun a -> match a with
     | [p; pos; kw] -> put_res put_env (bind_args (get_params p) (get_list get_n pos) (get_kw kw))
     | _ -> bad "c16_bind");
